@@ -26,6 +26,7 @@ def run(ctx):
     ctx.rule('C01.R5', 'push_copy merges only contiguous copies with checked length', floor=1)
     ctx.rule('C01.R6', 'sibling agreement: sync and async engines have the same verdict vector', floor=1)
     ctx.rule('C01.R7', 'CLI file chain: bincode serialize/deserialize agree on Signature / Delta', floor=2)
+    ctx.rule('C01.R8', 'single-file sync: every file sync_files creates holds exactly the source bytes it read or the whole buffer patch() produced', floor=2)
     for cfgname, F in ctx.F.items():
         conf = confirming_lookups(F)
         verdicts = {}
@@ -49,6 +50,8 @@ def run(ctx):
         r5(ctx, F)
         if 'bin' in F.crates:
             r7(ctx, F)
+        if F.nested('async_sync::AsyncCopiaSync::sync_files'):
+            r8(ctx, F, cfgname)
 
 
 class _Rec:
@@ -498,6 +501,55 @@ def r5(ctx, F):
     # otherwise a new op is pushed
     pushes = fl.calls(lambda c: c.endswith('Vec::<T, A>::push'))
     ctx.check(bool(pushes), 'C01.R5', 'push_copy:push-otherwise', 'non-mergeable copy is appended', 'push_copy drops copies it cannot merge', loc(b, b.lo))
+
+
+def r8(ctx, F, cfgname):
+    """`copia sync SRC DST` (AsyncCopiaSync::sync_files): what it leaves at the destination is exactly the source bytes.
+    Today every file it creates is written in one piece from the source buffer or from the buffer patch() filled.  When the new
+    file instead starts as a copy of the OLD destination, its length is the old one until it is set: every path from that copy to
+    the publishing rename must pass a `set_len` (a necessary condition - without it a source that is a proper prefix of the old
+    destination keeps the old tail).  Any other way of assembling the file is outside the model (NO-VERDICT)."""
+    import tables
+    cg = callgraph_of(F)
+    graph = {p for p in cg.reach(['async_sync::AsyncCopiaSync::sync_files']) if F.body(p) is not None and F.body(p).file.endswith('src/async_sync.rs')}
+    n = 0
+    for p in sorted(graph):
+        b = F.body(p)
+        if '::tests' in p:
+            continue
+        fl = flow_of(b)
+        cfg = fl.cfg
+        renames = [rb for rb, _ in fl.calls(lambda c: c.endswith('fs::rename'))]
+        setlens = [sb for sb, _ in fl.calls(lambda c: c.endswith('File::set_len'))]
+        for cb, ct in fl.calls(lambda c: c in tables.CONTENT_CREATORS or c.endswith('OpenOptions::write')):
+            c = callee(ct)
+            key = 'sync_files:%s:%s' % (c.split('::')[-1], cfgname)
+            if c.endswith('fs::write'):
+                n += 1
+                do = [o for o in fl.origins(ct['args'][1], mut_calls=True) if o.kind not in ('comb',)]
+                from_patch = any(o.kind == 'mutcall' and o.key.endswith('::patch') for o in do)
+                from_read = any(o.kind == 'call' and o.key.endswith('fs::read') for o in do)
+                whole = not any(o.kind == 'call' and (o.key in ('std::ops::Index::index', 'std::ops::IndexMut::index_mut') or 'split_at' in o.key) for o in do)
+                ctx.check((from_patch or from_read) and whole, 'C01.R8', key, 'write(path, <whole source buffer | whole patch output>)',
+                          'sync_files writes a file from something else than the complete source buffer / the complete buffer patch() produced', term_loc(b, cb))
+            elif c.endswith('fs::copy'):
+                n += 1
+                # pre-populated with another file: its length must be set on every way to the rename
+                leak = None
+                for rb in renames:
+                    if rb in cfg.reach(cb, cut_blocks=setlens):
+                        leak = rb
+                ctx.check(bool(renames) and leak is None, 'C01.R8', key, 'a file that starts as a copy gets its length set before it is published',
+                          'sync_files starts the new destination as a copy of an existing file and can publish it without ever setting its length: when the source is '
+                          'shorter than that file (e.g. a proper prefix of the old destination) the old tail survives', term_loc(b, cb))
+                if leak is None:
+                    ctx.undecided('C01.R8', 'sync_files assembles the destination from a copy plus partial writes: that the result equals the source is not decided')
+            elif c.endswith('OpenOptions::open'):
+                continue
+            else:
+                ctx.undecided('C01.R8', 'sync_files builds a file with %s: outside the model' % c)
+    if n < 2:
+        ctx.missing('C01.R8', 'sync_files: file writes (found %d)' % n)
 
 
 def r7(ctx, F):
